@@ -517,7 +517,7 @@ func CheckFlow(p *ps.Program, sc *ps.Scenario, o *Obs) []Mismatch {
 					m.add("order", "task %d started before its dependency %d ended", t.K, d)
 				}
 			}
-			if ps, ok := st[fmt.Sprintf("pcall %d", t.K)]; ok && !(ps.End < s.Start) {
+			if pst, ok := st[fmt.Sprintf("pcall %d", t.K)]; ok && !(pst.End < s.Start) {
 				m.add("order", "task %d started before its predicate ended", t.K)
 			}
 		}
@@ -633,6 +633,9 @@ func checkEvents(m *mm, sp evSpec, o *Obs) {
 				first[kk] = i
 			}
 			last[kk] = i
+			if strings.HasPrefix(e.Class, "other:") {
+				m.add("events", "emitter %d: %s carries unclassified %s", n, e.Kind, e.Class)
+			}
 			if e.K >= 0 {
 				if _, ok := byK[e.K]; !ok {
 					m.add("events", "emitter %d: %s for task %d which is not instrumented", n, e.Kind, e.K)
@@ -913,7 +916,12 @@ func CheckPar(p *ps.Program, sc *ps.Scenario, o *Obs) []Mismatch {
 		if !coe && len(o.Ret) > 1 {
 			m.add("ret", "fail-fast: %d entries", len(o.Ret))
 		}
-		must(fmt.Sprintf("call %d", cancelK))
+		for _, e := range o.Ret {
+			if e == "ctx" {
+				must(fmt.Sprintf("call %d", cancelK))
+				break
+			}
+		}
 	case len(C) == 0:
 		if len(o.Ret) != 0 {
 			m.add("ret", "ret %v want nil", o.Ret)
